@@ -322,6 +322,24 @@ def typePrefixesDeclared (t : List Plugin) (d : Doc) : Bool :=
     | .ok (some ty) => (d.root.nsdecls.map (·.1)).contains (typePrefix ty)
     | _ => true
 
+/-! ## Fragment placeholders
+
+In the parent file of a fragment the fragmented element is represented by a placeholder: containment tag,
+`xsi:type` and `href="<file>#<id>"`, no children.  `update_namespaces` walks `self.root.iter()`, which makes no
+difference between a placeholder and any other element: the placeholder's type asks for its namespace like every
+other type (a project fragmented per architecture layer has `oa:OperationalAnalysis` *only* on a placeholder of the
+main file).  The definitions below are the specification side of that: what a collection that looked at
+non-placeholders only (e.g. one representative per type out of `ModelFile.iterall_xt`, which hides placeholders)
+would compute. -/
+
+/-- the element carries an `href` attribute (a fragment placeholder in a semantic file) -/
+def isPlaceholder (x : Item) : Bool := (lookupAttr "href".toList x.2.2).isSome
+
+/-- NOT what the code does: the namespace map collected from the non-placeholder elements only -/
+def newNsmapSkippingPlaceholders (t : List Plugin) (vps : List (Str × Str)) (root : Elem) :
+    Except NsErr (List (Str × Str)) :=
+  scanGo t vps ((iterS [] root).filter fun x => !isPlaceholder x) nsInit
+
 /-! ## `MelodyLoader.referenced_viewpoints`, `MelodyLoader.update_namespaces` -/
 
 def METADATA_NS : Str := "http://www.polarsys.org/kitalpha/ad/metadata/1.0.0".toList
